@@ -218,6 +218,16 @@ def check_verdicts(ctx: Ctx, roles: SatRoles):
             recs = [cfg.stmt_node_containing(n) for n in own_nodes(f.node) if isinstance(n, ast.Call) and isinstance(n.func, ast.Attribute) and n.func.attr == "append" and ast.unparse(n.func.value) == "all_solutions"]
             ok = ok and ("T:all_solutions" in at or any(cfg.dominates(r, s.node) for r in recs))
         ctx.ob("C02-O3", "R1 STATUS-GUARD", f, f"OPTIMAL#{k} publishes a recorded model", ok, f"solution `{txt}` guards {sorted(at)}", node=s.call)
+        # a model is a model of the clauses *and* the assumptions: the site lies behind the loop that asserts them
+        def _asserts(fn_node):
+            return [n for n in own_nodes(fn_node) if isinstance(n, ast.For) and "assumptions" in names_in(n.iter) and any(isinstance(c_, ast.Call) and isinstance(c_.func, ast.Name) and c_.func.id == roles.assign.name for c_ in ast.walk(n))]
+
+        anchors_ = [cfg.node_of(n) for n in _asserts(f.node)]
+        for q_, g_ in f.children.items():
+            if _asserts(g_.node):
+                anchors_ += [cfg.stmt_node_containing(c_) for c_ in own_nodes(f.node) if isinstance(c_, ast.Call) and isinstance(c_.func, ast.Name) and c_.func.id == g_.name]
+        behind = any(a_ is not None and cfg.dominates(a_, s.node) for a_ in anchors_)
+        ctx.ob("C02-O3", "R26 assumptions", f, f"OPTIMAL#{k} is published only after the assumptions were asserted", behind, f"solution `{txt}`: a verdict taken before the assumption loop speaks about the bare clause set - with assumptions the hinted or guessed assignment may violate them, or no model may exist at all", node=s.call)
 
 
 def check_pure_vs_assumptions(ctx: Ctx, roles: SatRoles):
@@ -508,7 +518,16 @@ def _v_ingest_watch_conditional(tree):
     raise M.Skip("ingest dispatch not found")
 
 
+def _v_hint_shortcut_before_assumptions(tree):
+    g = M.find_func(tree, "solve_sat")
+    k = [i for i, st in enumerate(g.body) if isinstance(st, ast.Assign) and M.src_is(st.targets[0], "decisions")]
+    if not k:
+        raise M.Skip("decisions = 0 not found")
+    g.body[k[0]:k[0]] = M.stmts("if solution_limit == 1 and all(any(phase[lit_var(lit)] == (lit > 0) for lit in c) for c in clauses):\n    sol = {v: phase[v] for v in range(1, n_vars + 1)}\n    return Result(sol, len(sol), 0, 0)")
+
+
 VARIANTS = [
+    M.Variant("an assignment that satisfies the clauses is returned before the assumptions are looked at (seed C02-M)", SAT, _v_hint_shortcut_before_assumptions, "C02-O3"),
     M.Variant("long input clauses get their watches only under an extra condition (seed C01-P)", SAT, _v_ingest_watch_conditional, "C02-O5"),
 
     M.Variant("pure-literal guard set holds signed literals (seed C02-A)", SAT, _v_assumed_literals, "C02-O4"),
